@@ -16,44 +16,78 @@ class Unresolved(Exception):
     pass
 
 
-def emit_table(prog, f, out_field):
+def emit_table(prog, f, out_field=None, out_pred=None, extra_env=None):
     """-> ({byte: list of emitted byte values}, reject set or None).  Raises Unresolved with the reason."""
     G = q.Guarded(f)
-    cur_ids, cur_texts = set(), set()
+    cur_ids, cur_texts = {}, {}          # id / printed text -> signed?
     for s_ in walk_stmts(f['body']):
         if s_.get('k') in ('while', 'for', 'if') and s_.get('cv'):
             if T(f, s_['cv']['t']).get('bits') == 8:
-                cur_ids.add(s_['cv']['id'])
+                cur_ids[s_['cv']['id']] = bool(T(f, s_['cv']['t']).get('sg', True))
     for e in fn_exprs(f):
         if e.get('k') in ('un', 'idx') and (e.get('op') == '*' or e.get('k') == 'idx') and T(f, e.get('t')).get('bits') == 8 and \
                 not (e.get('k') == 'idx' and strip(e['b']).get('k') == 'var' and T(f, strip(e['b']).get('t')).get('arr') is not None):
-            cur_texts.add(pe(e))
+            cur_texts[pe(e)] = bool(T(f, e.get('t')).get('sg', True))
         if e.get('k') == 'call' and e.get('op') == '[]' and T(f, e.get('t')).get('bits') == 8:
-            cur_texts.add(pe(e))
+            cur_texts[pe(e)] = bool(T(f, e.get('t')).get('sg', True))
     from ir import stmt_exprs
     in_loop = set(id(e) for lp in walk_stmts(f['body']) if lp.get('k') in ('for', 'while', 'do') for e in stmt_exprs(lp['body']))
+    if out_pred is None:
+        out_pred = lambda x: any(w.get('k') == 'mem' and w.get('f') == out_field for w in walk_expr(x))
+
+    def is_write(e):
+        return e.get('k') == 'call' and (e.get('op') in ('<<', '+=') or (e.get('pq') or '').split('::')[-1] in ('append',)) and e.get('a')
+
+    def chain_root(e):
+        o = e.get('obj') or (e['a'][0] if e.get('a') else {})
+        while isinstance(o, dict):
+            o2 = strip(o)
+            while o2.get('k') in ('cast', 'temp'):
+                o2 = strip(o2['e'])
+            if is_write(o2):
+                o = o2.get('obj') or {}
+                continue
+            return o2
+        return {}
+    allw = [e for e in fn_exprs(f) if id(e) in in_loop and is_write(e) and out_pred(chain_root(e))]
+    inner = set()
+    for e in allw:
+        o = strip(e.get('obj') or {})
+        while o.get('k') in ('cast', 'temp'):
+            o = strip(o['e'])
+        if is_write(o):
+            inner.add(id(o))
+    maximal = [e for e in allw if id(e) not in inner]
+    # flatten every chain `out << a << b` into its arguments in emission order; each keeps the guards of its statement
     writes = []
-    for e in fn_exprs(f):
-        if id(e) not in in_loop:
-            continue            # framing written once, outside the per-character loop
-        if e.get('k') == 'call' and (e.get('op') in ('<<', '+=') or (e.get('pq') or '').split('::')[-1] in ('append',)) and e.get('a') \
-                and any(w.get('k') == 'mem' and w.get('f') == out_field for w in walk_expr(e.get('obj') or e['a'][0])):
-            writes.append(e)
+    for m in maximal:
+        seq = []
+        e = m
+        while isinstance(e, dict) and is_write(e):
+            seq.append(e)
+            o = strip(e.get('obj') or {})
+            while o.get('k') in ('cast', 'temp'):
+                o = strip(o['e'])
+            e = o
+        seq.reverse()
+        writes.append((m, seq))
     if not writes or len(cur_texts) + len(cur_ids) == 0:
         raise Unresolved('output writes or current-character expression not found')
     order = dict((id(x), i) for i, x in enumerate(G.order))
-    writes.sort(key=lambda e: order.get(id(e), 0))
+    writes.sort(key=lambda ms: order.get(id(ms[0]), 0))
+    writes = [(w_, m_) for m_, seq_ in writes for w_ in seq_]
     # bulk form: append(p, strcspn(p, "<reject set>")) copies a run of bytes outside the reject set raw; only bytes of the
     # reject set ever reach the per-character writes
     reject = None
-    for w in list(writes):
+    for wm in list(writes):
+        w = wm[0]
         if len(w['a']) == 2:
             ln = strip(q.expand(f, w['a'][1]))
             while ln.get('k') == 'cast':
                 ln = strip(ln['e'])
             if ln.get('k') == 'call' and ln.get('fn') == 'strcspn' and strip(ln['a'][1]).get('k') == 'str' and reject is None:
                 reject = set(strip(ln['a'][1])['b'])
-                writes.remove(w)
+                writes.remove(wm)
             else:
                 raise Unresolved('bulk write `%s` with an unrecognised length' % pe(w))
     fmts = [e for e in fn_exprs(f) if e.get('k') == 'call' and e.get('fn') in ('snprintf', 'sprintf')]
@@ -63,10 +97,12 @@ def emit_table(prog, f, out_field):
             table[bv] = [bv]
             continue
         sv = bv - 256 if bv > 127 else bv
-        ev = bounded.Bound(prog, f, dict((i, sv) for i in cur_ids), dict((t, sv) for t in cur_texts))
+        env_ = dict((i, sv if sg else bv) for i, sg in cur_ids.items())
+        env_.update(extra_env or {})
+        ev = bounded.Bound(prog, f, env_, dict((t, sv if sg else bv) for t, sg in cur_texts.items()))
         out = []
-        for w in writes:
-            if not bounded.admitted(ev, G.of(w), G):
+        for w, m_ in writes:
+            if not bounded.admitted(ev, G.of(m_), G):
                 continue
             arg = w['a'][-1]
             a0 = strip(arg)
